@@ -8,6 +8,7 @@ import (
 	"strings"
 	"testing"
 
+	"k8s.io/apimachinery/pkg/apis/meta/v1/unstructured"
 	"k8s.io/apimachinery/pkg/runtime/schema"
 	"sigs.k8s.io/controller-runtime/pkg/client"
 
@@ -22,22 +23,19 @@ import (
 // removal at its own instant, whatever ran in between.
 
 const (
-	// Known-finding keys: an instance of the kind is created after the XRD
-	// reconciler listed the instances of that kind (empty) and before the same
-	// reconcile deletes the kind's CRD.
+	// Known-finding key (status fixed since /repo 19b4a1b, so it suppresses nothing): an XR is
+	// re-created by the claim controller after the definition reconciler listed the XRs (empty)
+	// and before the same reconcile deletes the XR CRD.
 	findingClaimCtrl = "xr-recreated-by-claim-controller-between-empty-list-and-crd-delete"
-	findingUser      = "instance-created-by-user-between-empty-list-and-crd-delete"
 )
 
-// interloperOps are the steps another actor may take in the middle of an XRD reconcile.
-var interloperOps = []act{{Op: "rec-claim"}, {Op: "rec-xr"}, {Op: "create-xr"}, {Op: "create-extra-claim"}, {Op: "gc"}}
+// interloperOps are the steps another actor may take in the middle of an XRD reconcile. They are
+// the actors of the property's quantifier (controller reconciles, GC steps); user CREATIONS are
+// not quantified over and Crossplane cannot prevent them, so they are not interlopers (see the
+// observation rows in TestVerifC08KnownInterleavings).
+var interloperOps = []act{{Op: "rec-claim"}, {Op: "rec-xr"}, {Op: "gc"}}
 
-func findingFor(op string) string {
-	if op == "rec-claim" {
-		return findingClaimCtrl
-	}
-	return findingUser
-}
+func findingFor(string) string { return findingClaimCtrl }
 
 // excludeKnown says whether interleavings of an open known-finding class are steered away from.
 // The pinned reproducers switch it off.
@@ -46,6 +44,7 @@ var excludeKnown = true
 type hookClient struct {
 	client.Client
 	before func(call string)
+	listed func(kind string, n int)
 }
 
 func (h *hookClient) Get(ctx context.Context, key client.ObjectKey, obj client.Object, opts ...client.GetOption) error {
@@ -54,8 +53,13 @@ func (h *hookClient) Get(ctx context.Context, key client.ObjectKey, obj client.O
 }
 
 func (h *hookClient) List(ctx context.Context, list client.ObjectList, opts ...client.ListOption) error {
-	h.before("list " + list.GetObjectKind().GroupVersionKind().Kind)
-	return h.Client.List(ctx, list, opts...)
+	kind := strings.TrimSuffix(list.GetObjectKind().GroupVersionKind().Kind, "List")
+	h.before("list " + kind)
+	err := h.Client.List(ctx, list, opts...)
+	if ul, ok := list.(*unstructured.UnstructuredList); ok && err == nil && h.listed != nil {
+		h.listed(kind, len(ul.Items))
+	}
+	return err
 }
 
 func (h *hookClient) Create(ctx context.Context, obj client.Object, opts ...client.CreateOption) error {
@@ -115,13 +119,14 @@ func (w *world) interloped(run *verifsim.Run, a act, gk schema.GroupKind) client
 	}
 	fired, listed := false, false
 	h := &hookClient{Client: c}
+	// listed: this reconcile has listed the instances of gk and found none.
+	h.listed = func(kind string, n int) {
+		if kind == gk.Kind {
+			listed = n == 0
+		}
+	}
 	h.before = func(call string) {
 		idx := run.N // the index the upcoming call will get
-		defer func() {
-			if call == "list "+gk.Kind || call == "list "+gk.Kind+"List" {
-				listed = true
-			}
-		}()
 		if fired || idx != a.MidK || run.Crashed {
 			return
 		}
@@ -178,10 +183,10 @@ var followUp = []act{{Op: "rec-def"}, {Op: "rec-off"}, {Op: "rec-claim"}, {Op: "
 // every interloper before every one of its API calls, followed by a fixed
 // fault-free tail.
 func TestVerifC08Interleavings(t *testing.T) {
-	rec := verifkit.New(t, "C08", "interleavings at API-call granularity: for every state reached by <= N fault-free teardown steps after `user deletes XRD`, the definition and the offered reconcile are each run with every interloper (claim reconcile, XR reconcile, user creates an XR, user creates a claim, GC step; controllers only while the engine runs them) before every API call index, then a fault-free tail; monitors (a)-(d) unchanged; non-trivial = the interloper ran after the reconcile's first write or after its instance list")
-	depth := 4
+	rec := verifkit.New(t, "C08", "interleavings at API-call granularity: for every state reached by <= N fault-free teardown steps after `user deletes XRD`, the definition and the offered reconcile are each run with every interloper (claim reconcile, XR reconcile, GC step; controllers only while the engine runs them) before every API call index, then a fault-free tail; monitors (a)-(d) unchanged; non-trivial = the interloper ran after the reconcile's first write or after its instance list")
+	depth := 5
 	if verifkit.Tier() == "thorough" {
-		depth = 6
+		depth = 8
 	}
 	prefixOps := []act{{Op: "rec-def"}, {Op: "rec-off"}, {Op: "rec-claim"}, {Op: "rec-xr"}, {Op: "gc"}, {Op: "del-claim"}}
 	shard, shards := verifkit.Shard()
@@ -263,6 +268,86 @@ func TestVerifC08Interleavings(t *testing.T) {
 					}
 				}
 			}
+		}
+	}
+}
+
+// ---------------------------------------------------------------------------
+// pinned reproducers of the known interleavings
+
+type knownRow struct {
+	name, key string
+	prefix    []act
+	action    act
+	wantCall  string // the call the interloper precedes
+}
+
+func knownRows() []knownRow {
+	return []knownRow{
+		{name: "claim-controller", key: findingClaimCtrl,
+			prefix:   []act{{Op: "del-xrd"}, {Op: "rec-def"}, {Op: "rec-xr"}},
+			action:   act{Op: "rec-def", Mid: &act{Op: "rec-claim"}, MidK: 5},
+			wantCall: "delete apiextensions.k8s.io/CustomResourceDefinition//xthings.example.org"},
+	}
+}
+
+// TestVerifC08KnownInterleavings runs the pinned reproducer of each known
+// interleaving with the exclusion switched off. Listed open and still failing:
+// KNOWN-FINDING. Not listed open (fixed, or never listed): it must pass.
+func observationRows() []knownRow {
+	return []knownRow{
+		{name: "user-xr",
+			prefix: []act{{Op: "del-xrd"}, {Op: "rec-off"}, {Op: "rec-claim"}, {Op: "rec-xr"}, {Op: "rec-off"}, {Op: "rec-off"}},
+			action: act{Op: "rec-def", Mid: &act{Op: "create-xr"}, MidK: 5}},
+		{name: "user-claim",
+			prefix: []act{{Op: "del-xrd"}, {Op: "rec-off"}, {Op: "rec-claim"}},
+			action: act{Op: "rec-off", Mid: &act{Op: "create-extra-claim"}, MidK: 4}},
+	}
+}
+
+func TestVerifC08KnownInterleavings(t *testing.T) {
+	rec := verifkit.New(t, "C08", "pinned reproducers of the known schedule-dependent findings")
+	excludeKnown = false
+	defer func() { excludeKnown = true }()
+	for _, row := range knownRows() {
+		rec.Eval()
+		w := newWorld(universe{Claims: 1, Templates: 1, Foreground: []bool{false}, Stage: stageFull, Seed: 13}, nil)
+		for _, a := range row.prefix {
+			w.do(a)
+		}
+		if v := w.sim.TakeViolations(); len(v) > 0 {
+			t.Fatalf("%s: violation in the prefix: %v", row.name, v)
+		}
+		out := w.do(row.action)
+		if got := callName(w.lastRun, row.action.MidK); got != row.wantCall && verifkit.OpenFinding("C08", row.key) && w.midRan > 0 {
+			t.Fatalf("%s: the reproducer is stale: call %d of the reconcile is %q, want %q (all: %v)", row.name, row.action.MidK, got, row.wantCall, w.lastRun.Calls)
+		}
+		v := w.sim.TakeViolations()
+		reproduced := false
+		for _, s := range v {
+			reproduced = reproduced || strings.HasPrefix(s, "(b)")
+		}
+		switch {
+		case verifkit.OpenFinding("C08", row.key) && reproduced:
+			rec.KnownReproduced(fmt.Sprintf("key=%s reproducer=%s: %s", row.key, row.name, v[0]))
+		case verifkit.OpenFinding("C08", row.key):
+			t.Logf("%s: finding %s is listed open but its reproducer no longer fails (%s); mark it fixed", row.name, row.key, out)
+		case len(v) > 0:
+			t.Fatalf("%s: prefix %s action %s -> %s\n%s", row.name, verifkit.JSON(row.prefix), row.action, out, strings.Join(v, "\n"))
+		}
+	}
+	// Observations only (never a failure, never a KNOWN-FINDING): a USER creating an XR / a claim in
+	// the same window also leaves an instance at the instant of the CRD delete. User creations are
+	// outside the property's quantifier; what the monitors say is recorded as an evidence label.
+	for _, row := range observationRows() {
+		w := newWorld(universe{Claims: 1, Templates: 1, Foreground: []bool{false}, Stage: stageFull, Seed: 13}, nil)
+		for _, a := range row.prefix {
+			w.do(a)
+		}
+		w.sim.TakeViolations()
+		w.do(row.action)
+		if len(w.sim.TakeViolations()) > 0 {
+			rec.Label("observation:user-creation-in-window")
 		}
 	}
 }
